@@ -239,6 +239,10 @@ fn sig_palette() -> Vec<CoseSignature> {
         nested_sig(7),
         nested_sig(8),
         nested_sig(12),
+        // signer descriptions as a decoder yields them: protected bytes retained, not the crate's own encoding
+        decoded_countersig(),
+        CoseSignature { protected: ProtectedHeader { original_data: Some(vec![0xa0]), header: Header::default() }, unprotected: Header::default(), signature: vec![6] },
+        CoseSignature { protected: ProtectedHeader { original_data: Some(vec![0xa2, 0x04, 0x41, 0x31, 0x01, 0x26]), header: Header { alg: Some(Algorithm::Assigned(iana::Algorithm::ES256)), key_id: vec![0x31], ..Default::default() } }, unprotected: Header::default(), signature: vec![] },
     ]
 }
 fn gen_sig(g: &mut Gen) -> CoseSignature {
